@@ -481,14 +481,14 @@ func extractDispatch(repo string, adapters map[string]bool) ([]dispatchEntry, er
 	return out, nil
 }
 
-func leanStr(s string) string { return strconv.Quote(s) }
+func adLeanStr(s string) string { return strconv.Quote(s) }
 
 func leanImpl(r implRef) string {
 	switch r.kind {
 	case "adapter":
-		return fmt.Sprintf("(.adapter %s %s)", leanStr(r.name), leanStr(r.body))
+		return fmt.Sprintf("(.adapter %s %s)", adLeanStr(r.name), adLeanStr(r.body))
 	case "hand":
-		return fmt.Sprintf("(.hand %s)", leanStr(r.name))
+		return fmt.Sprintf("(.hand %s)", adLeanStr(r.name))
 	case "value":
 		return ".value"
 	}
@@ -539,13 +539,13 @@ func genAdapters(repo string) (string, error) {
 			rs = append(rs, strconv.Itoa(r))
 		}
 		for _, c := range a.convs {
-			cs = append(cs, fmt.Sprintf("(%s, %s)", c[0], leanStr(c[1])))
+			cs = append(cs, fmt.Sprintf("(%s, %s)", c[0], adLeanStr(c[1])))
 		}
 		sep := ","
 		if i == len(ads)-1 {
 			sep = ""
 		}
-		fmt.Fprintf(&sb, "  ⟨%s, %s, %v, %s, [%s], [%s]⟩%s\n", leanStr(a.name), leanStr(a.file), a.ex, chk, strings.Join(rs, ", "), strings.Join(cs, ", "), sep)
+		fmt.Fprintf(&sb, "  ⟨%s, %s, %v, %s, [%s], [%s]⟩%s\n", adLeanStr(a.name), adLeanStr(a.file), a.ex, chk, strings.Join(rs, ", "), strings.Join(cs, ", "), sep)
 	}
 	sb.WriteString("]\n\n")
 	sb.WriteString("def dispatch : List Entry := [\n")
@@ -554,7 +554,7 @@ func genAdapters(repo string) (string, error) {
 		if i == len(disp)-1 {
 			sep = ""
 		}
-		fmt.Fprintf(&sb, "  ⟨%s, %s, %s, %s⟩%s\n", leanStr(d.table), leanStr(d.name), leanImpl(d.value), leanImpl(d.ex), sep)
+		fmt.Fprintf(&sb, "  ⟨%s, %s, %s, %s⟩%s\n", adLeanStr(d.table), adLeanStr(d.name), leanImpl(d.value), leanImpl(d.ex), sep)
 	}
 	sb.WriteString("]\n\nend UgoVerif.Gen.Adapters\n")
 	_ = filepath.Join
